@@ -3391,6 +3391,26 @@ impl LlamaExecutor {
                     }
                 }
                 if let (Some(m1), Some(m2)) = (decoded.mem, decoded.mem2) {
+                    if entry.kind == InstrKind::Exl {
+                        // Block exchange: loop I times (m++) <-> (n++), then I = 0.
+                        let length = state.get_reg(RegName::I) & mask_for(RegName::I);
+                        let mut a1 = m1.addr;
+                        let mut a2 = m2.addr;
+                        for _ in 0..length {
+                            let v1 = bus.load(a1, 8);
+                            let v2 = bus.load(a2, 8);
+                            Self::store_traced(bus, a1, 8, v2);
+                            Self::store_traced(bus, a2, 8, v1);
+                            a1 = Self::advance_internal_addr_signed(a1, 1);
+                            a2 = Self::advance_internal_addr_signed(a2, 1);
+                        }
+                        state.set_reg(RegName::I, 0);
+                        let start_pc = state.pc();
+                        if state.pc() == start_pc {
+                            state.set_pc(start_pc.wrapping_add(decoded.len as u32));
+                        }
+                        return Ok(decoded.len);
+                    }
                     let bits = m1.bits.min(m2.bits);
                     let v1 = bus.load(m1.addr, bits);
                     let v2 = bus.load(m2.addr, bits);
